@@ -1,5 +1,6 @@
 """Engine core: context, class table, coercions, heap, exceptions, obligations."""
 import ast
+import os
 from . import smt
 from .smt import T, INT, BOOL, STR, U
 from .values import *  # noqa
@@ -62,6 +63,9 @@ class CoreMixin:
         self.polarity = 0
         self.goal_mode = False
         self.in_old = 0
+        self.entail_cache = {}
+        self.entail_queries = 0
+        self.cur_clause = None
         self.skolems = []
         self.old_state = None
         self.path_counter = 0
@@ -325,6 +329,33 @@ class CoreMixin:
         if k == "optmatch":
             return smt.Not(v.ts[0])
         raise Unsupported("truthiness of %r" % (v.ty,))
+
+    # -- cheap in-process entailment (used only to simplify terms; 'unsat' is the only answer acted on)
+    def entails(self, st, goal, ms=200):
+        if goal.s == "true":
+            return True
+        if goal.s == "false":
+            return False
+        key = (len(st.pc), hash(tuple(t.s for t in st.pc)), goal.s)
+        if key in self.entail_cache:
+            return self.entail_cache[key]
+        res = False
+        try:
+            import z3
+            txt = self.ctx.script(list(st.pc) + [smt.Not(goal)], keep_quantifiers=False, extra_terms=False)
+            txt = txt.replace("(check-sat)", "")
+            zctx = z3.Context()
+            s = z3.Solver(ctx=zctx)
+            s.set("timeout", ms)
+            s.from_string(txt)
+            res = s.check() == z3.unsat
+        except Exception as ex:
+            if os.environ.get("PYVC_DEBUG"):
+                print("entails exception:", str(ex)[:300])
+            res = False
+        self.entail_cache[key] = res
+        self.entail_queries += 1
+        return res
 
     # -- obligations -------------------------------------------------------
     def oblige(self, st, goal, oid, kind, line=0, text="", skolems=()):
